@@ -27,9 +27,19 @@ argcounts: dict[str, int] = {'type': 1}
 
 unsafe_builtins = {
     'breakpoint',  # Remote code execution and interactive shell access
+    'compile',
+    'eval',
+    'exec',
+    'open',  # File system, terminal input/output, and process exit
+    'input',
+    'print',
+    'help',
+    'exit',
+    'quit',
     'getattr',  # Attribute-based sandbox escapes and manipulation
     'hasattr',
     'setattr',
+    'delattr',
     'dir',  # Introspection and environment mapping
     'globals',
     'id',
